@@ -22,7 +22,7 @@ ID = 'C16'
 LEVEL = 'exploration'
 TECHNIQUE = 'bounded exhaustive enumeration: all (array length, shift, fill) triples for the helpers; all index-site combinations of an expression grammar x span types for eval(), against direct Python evaluation'
 RULE = ('helpers: arrays of length 0..5 (quick) / 0..7 (thorough) x p,d in [-n-1,n+1] x 3 fills x {lag,lead,diff,dlog} x 2 dtypes; eval: 7 templates with 1..3 index '
-        'sites x 25 site forms (10 positional, 15 backticked) x 9 span types, plus name-resolution cases. '
+        'sites x 25 site forms (10 positional, 15 backticked) x 11 span types (negative integer labels, unsorted NumPy labels), plus name-resolution cases incl. 14 variables named like container attributes/methods. '
         'non-trivial = helper call with a non-empty array / expression with at least one index site')
 ASSUMPTIONS = [
     'mixed positional/label slices (X[1:`2003`]) and non-literal index expressions next to backticks are outside the property',
